@@ -779,7 +779,16 @@ func (s *State) GetReverseStateDiff(
 			if blockNumber > 0 {
 				oldValue, err := s.ContractStorageAt(&addr, &key, blockNumber-1)
 				if err != nil {
-					return core.StateDiff{}, err
+					if !errors.Is(err, ErrCheckHeadState) {
+						return core.StateDiff{}, err
+					}
+					// No history entry above blockNumber-1: the write in this block did not
+					// change the slot (history is only recorded on change), so the head value
+					// is the value at blockNumber-1.
+					oldValue, err = s.ContractStorage(&addr, &key)
+					if err != nil {
+						return core.StateDiff{}, err
+					}
 				}
 				value = oldValue
 			}
